@@ -196,7 +196,11 @@ class MatcherMixin:
     def finish_optionbag(self):
         for key in list(self.optionbag.keys()):
             for val, pos in self.optionbag.get_key(key):
-                ZConfig.matcher.BaseMatcher.addValue(self, key, val, pos)
+                # Specifier positions are (url, line, column); the matcher
+                # expects value positions as (line, column, url).
+                url, lineno, colno = pos
+                ZConfig.matcher.BaseMatcher.addValue(
+                    self, key, val, (lineno, colno, url))
         self.optionbag.finish()
 
 
